@@ -25,6 +25,9 @@ MPI_ENV = {"OMPI_ALLOW_RUN_AS_ROOT": "1", "OMPI_ALLOW_RUN_AS_ROOT_CONFIRM": "1",
            "OMPI_MCA_rmaps_base_oversubscribe": "1"}
 
 
+SHRINK_BUDGET_S = 150
+
+
 class EngineError(Exception):
     pass
 
@@ -315,6 +318,11 @@ def _shard_main(prop_name, tier, seed, shard, nshards, nexamples, outpath, budge
         if budget_s and time.time() - t0 > budget_s and state["last_fail"] is None:
             state["stop"] = True
             return
+        if state["last_fail"] is not None and time.time() - state["fail_t0"] > SHRINK_BUDGET_S:
+            # bounded shrinking: once the budget is used up only the best known failing case still fails
+            if case_hash(case) == state["best_hash"]:
+                raise AssertionError("property failed")
+            return
         res = prop.execute(case, ctx)
         if res.status == "discard":
             st["discarded"] += 1
@@ -333,7 +341,10 @@ def _shard_main(prop_name, tier, seed, shard, nshards, nexamples, outpath, budge
             st["known_hits"][res.signature] = st["known_hits"].get(res.signature, 0) + 1
             return
         if res.status == "fail":
+            if state["last_fail"] is None:
+                state["fail_t0"] = time.time()
             state["last_fail"] = (case, res.detail, res.signature)
+            state["best_hash"] = h
             raise AssertionError("property failed")
 
     strategy = prop.strategy(tier)
@@ -460,6 +471,13 @@ def campaign(prop_id, tier, seed):
         print(l)
     sys.stdout.flush()
 
+    pre = None
+    if hasattr(prop, "pre_campaign"):
+        try:
+            pre = prop.pre_campaign(tier, seed)
+        except EngineError as e:
+            print("ENGINE-ERROR property=%s pre-campaign: %s" % (prop_id, e))
+            return 2
     nshards = cfg["shards"]
     wd = workdir()
     procs = []
@@ -498,6 +516,12 @@ def campaign(prop_id, tier, seed):
         for k, v in s.get("sample_by_class", {}).items():
             by_class.setdefault(k, v)
     failures = [s["failure"] for s in shards if s.get("failure")]
+    if pre:
+        failures = list(pre.get("failures", [])) + failures
+        evaluations += pre.get("evaluations", 0)
+        nontrivial.update(pre.get("nontrivial_hashes", []))
+        for k, v in pre.get("classes", {}).items():
+            classes[k] = classes.get(k, 0) + v
     engine_errors = [s["engine_error"] for s in shards if s.get("engine_error")]
 
     violations = 0
@@ -538,6 +562,9 @@ def campaign(prop_id, tier, seed):
                 "flavours": cfg["flavours"], "budget_stopped_shards": sum(1 for s in shards if s.get("budget_stop"))}
     if hasattr(prop, "extra_coverage"):
         coverage.update(prop.extra_coverage(tier))
+    if pre:
+        coverage.update(pre.get("coverage", {}))
+        cov_samples += pre.get("samples", [])[:2]
     wall = time.time() - t0
     write_evidence(prop_id, tier, seed, coverage, wall, violations, prop.ASSUMPTIONS)
 
